@@ -41,7 +41,22 @@ var Props = []*common.Prop{outProp("C01"), outProp("C04"), outProp("C17"),
 			Gen:    func(r *simrt.Rand, tier string, idx int) interface{} { return genUDPLifeCase(r, tier) },
 			Run:    runUDPLife,
 			Shrink: shrinkUDPLife}}),
-	{ID: "C02", New: func() interface{} { return &InCase{} },
+	common.Combine("C02",
+		common.Part{Name: "inbound", Weight: 7, P: inProp()},
+		// "when no input is pending the readers go idle": the outbound scenarios (accepted, added and
+		// dialed connections that write, with backlogs and without) judged for a poller or reader
+		// that keeps running in the fair phase although nothing moves
+		common.Part{Name: "idle", Weight: 1, P: idleProp()}),
+}
+
+func idleProp() *common.Prop {
+	p := outProp("C02")
+	p.Sweep = nil
+	return p
+}
+
+func inProp() *common.Prop {
+	return &common.Prop{ID: "C02", New: func() interface{} { return &InCase{} },
 		Gen:    func(r *simrt.Rand, tier string, idx int) interface{} { return genInCase(r, tier) },
 		Run:    func(t *testing.T, c interface{}, trace bool) *common.Outcome { return runIn(t, c, trace) },
 		Shrink: shrinkIn,
@@ -59,7 +74,7 @@ var Props = []*common.Prop{outProp("C01"), outProp("C04"), outProp("C17"),
 				}
 			}
 			return false
-		}},
+		}}
 }
 
 
